@@ -93,6 +93,8 @@ pub fn gen_hermes_doc(rng: &mut Rng, size: usize) -> Value {
         1 => json!([[]]),                                                  // empty metadata list
         2 => json!([[{"names": ["x"], "mappings": [2, 133, 0]}]]),          // unparsable ('!')
         3 => json!([[{"names": ["x"], "mappings": [0, 32]}]]),              // unparsable (cut off)
+        4 => json!([[gen_fn_map(rng, size), gen_fn_map(rng, size)]]),                                   // a second entry (only the first is the function map)
+        5 => json!([[{"names": ["x"], "mappings": [0, 0, 0, 64, 7, 133]}, gen_fn_map(rng, size)]]),      // unparsable first entry, parsable second
         _ => json!([[gen_fn_map(rng, size)]]),
     }).collect();
     let mut d = json!({"version": [3], "sources": [srcs], "names": [[]], "mappings": [own_mappings(&toks)], "xfs": [xfs]});
